@@ -19,6 +19,7 @@ package main
 
 import (
 	"bytes"
+	"regexp"
 	"flag"
 	"fmt"
 	"go/ast"
@@ -558,6 +559,13 @@ func (w *walker) callStmt(e ast.Expr) {
 					return
 				}
 			}
+			// this.Field.Write(out): a field holding another record (ProfilePack.Transaction)
+			if ft, ok := fieldType(w.typ, inner.Sel.Name); ok && (sel.Sel.Name == "Write" || sel.Sel.Name == "Read") {
+				tn := ft[strings.LastIndexAny(ft, "*.")+1:]
+				if _, isStruct := structs[tn]; isStruct && w.inline(tn, sel.Sel.Name) {
+					return
+				}
+			}
 		}
 	}
 	// this.helper(args)
@@ -624,6 +632,28 @@ func (w *walker) assign(x *ast.AssignStmt) {
 			w.lazy[id.Name] = true
 			*w.subOpen++
 			return
+		}
+	}
+	// this.F = pkg.NewT().Read(in): the field is read by T's reader
+	if _, ok := w.recvField(lhs); ok {
+		if c, ok := rhs.(*ast.CallExpr); ok && len(c.Args) == 1 {
+			if sel, ok := c.Fun.(*ast.SelectorExpr); ok && sel.Sel.Name == "Read" {
+				if aid, ok := c.Args[0].(*ast.Ident); ok && w.streams[aid.Name] {
+					if ctor, ok := sel.X.(*ast.CallExpr); ok {
+						name := ""
+						switch f := ctor.Fun.(type) {
+						case *ast.SelectorExpr:
+							name = f.Sel.Name
+						case *ast.Ident:
+							name = f.Name
+						}
+						tn := constructed(name)
+						if _, isStruct := structs[tn]; isStruct && w.inline(tn, "Read") {
+							return
+						}
+					}
+				}
+			}
 		}
 	}
 	// reads
@@ -793,6 +823,126 @@ func typeCode(typ, getter string) string {
 
 func q(s string) string { return strconv.Quote(s) }
 
+var (
+	reWL   = regexp.MustCompile(`^(Write\w+) #(-?\d+)$`)
+	reW    = regexp.MustCompile(`^(Write\w+) (\w+):(\S+)$`)
+	reWX   = regexp.MustCompile(`^(Write\w+) (.+)$`)
+	reRD   = regexp.MustCompile(`^(Read\w+) _$`)
+	reRSub = regexp.MustCompile(`^(Read\w+) sub$`)
+	reRL   = regexp.MustCompile(`^(Read\w+) (local\d+)(?: (\w+))?$`)
+	reR    = regexp.MustCompile(`^(Read\w+) (\w+):(\S+?)(?: (\w+))?$`)
+	reIfNZ = regexp.MustCompile(`^if (\w+) != 0$`)
+	reIfZ  = regexp.MustCompile(`^if (\w+) == 0$`)
+	reIfNil = regexp.MustCompile(`^if (\w+) == nil$`)
+	reIfNN = regexp.MustCompile(`^if (\w+) != nil$`)
+	reIfBit = regexp.MustCompile(`^if IsTrue\((\d+)\)$`)
+	reIfLt = regexp.MustCompile(`^if (local\d+) < (\d+)$`)
+	reIfEq = regexp.MustCompile(`^if (local\d+) == (\d+)$`)
+	reIfPos = regexp.MustCompile(`^if (local\d+) > 0$`)
+	reCase = regexp.MustCompile(`^case (\d+)$`)
+	reAsg  = regexp.MustCompile(`^assign (\w+):(\S+) = (.+)$`)
+	reAsgN = regexp.MustCompile(`^assign (\w+):(\S+) = (\d+)$`)
+)
+
+// leanTok renders one skeleton token as a term of `Step.Tok` (the lexing is done here, so that the
+// Lean interpreter only compares and never has to split strings).
+func leanTok(t string) string {
+	switch t {
+	case "WriteBlob sub":
+		return ".wsub"
+	case "else":
+		return ".el"
+	case "end":
+		return ".en"
+	case "sub{":
+		return ".so"
+	case "}sub":
+		return ".sc"
+	case "panic":
+		return ".pn"
+	case "return":
+		return ".ret"
+	case "if $.ReadByte() > 0":
+		return ".ifrdpos"
+	case "switch $.ReadByte()":
+		return ".swrd"
+	case "if $.Available() > 0":
+		return ".ifavail"
+	}
+	if m := reWL.FindStringSubmatch(t); m != nil {
+		v := m[2]
+		if strings.HasPrefix(v, "-") {
+			v = "(" + v + ")"
+		}
+		return fmt.Sprintf(".wl %s %s", q(m[1]), v)
+	}
+	if m := reW.FindStringSubmatch(t); m != nil {
+		return fmt.Sprintf(".w %s %s %s", q(m[1]), q(m[2]), q(m[3]))
+	}
+	if m := reWX.FindStringSubmatch(t); m != nil {
+		return fmt.Sprintf(".wx %s %s", q(m[1]), q(m[2]))
+	}
+	if m := reRD.FindStringSubmatch(t); m != nil {
+		return fmt.Sprintf(".rd %s", q(m[1]))
+	}
+	if m := reRSub.FindStringSubmatch(t); m != nil {
+		return fmt.Sprintf(".rsub %s", q(m[1]))
+	}
+	if m := reRL.FindStringSubmatch(t); m != nil {
+		return fmt.Sprintf(".rl %s %s %s", q(m[1]), q(m[2]), q(m[3]))
+	}
+	if m := reR.FindStringSubmatch(t); m != nil {
+		return fmt.Sprintf(".r %s %s %s %s", q(m[1]), q(m[2]), q(m[3]), q(m[4]))
+	}
+	if m := reIfNZ.FindStringSubmatch(t); m != nil {
+		return ".ifnz " + q(m[1])
+	}
+	if m := reIfZ.FindStringSubmatch(t); m != nil {
+		return ".ifz " + q(m[1])
+	}
+	if m := reIfNil.FindStringSubmatch(t); m != nil {
+		return ".ifnil " + q(m[1])
+	}
+	if m := reIfNN.FindStringSubmatch(t); m != nil {
+		return ".ifnn " + q(m[1])
+	}
+	if m := reIfBit.FindStringSubmatch(t); m != nil {
+		return ".ifbit " + m[1]
+	}
+	if m := reIfLt.FindStringSubmatch(t); m != nil {
+		return fmt.Sprintf(".iflt %s %s", q(m[1]), m[2])
+	}
+	if m := reIfEq.FindStringSubmatch(t); m != nil {
+		return fmt.Sprintf(".ifeq %s %s", q(m[1]), m[2])
+	}
+	if m := reIfPos.FindStringSubmatch(t); m != nil {
+		return ".ifpos " + q(m[1])
+	}
+	if m := reCase.FindStringSubmatch(t); m != nil {
+		return ".cs " + m[1]
+	}
+	if m := reAsgN.FindStringSubmatch(t); m != nil {
+		return fmt.Sprintf(".asgn %s %s %s", q(m[1]), q(m[2]), m[3])
+	}
+	if m := reAsg.FindStringSubmatch(t); m != nil {
+		return fmt.Sprintf(".asg %s %s %s", q(m[1]), q(m[2]), q(m[3]))
+	}
+	for _, p := range []struct{ pre, ctor string }{{"switch ", ".sw"}, {"if ", ".iff"}, {"for ", ".lp"}, {"from ", ".fr"}, {"call ", ".call"}} {
+		if strings.HasPrefix(t, p.pre) {
+			return p.ctor + " " + q(t[len(p.pre):])
+		}
+	}
+	return ".raw " + q(t)
+}
+
+func leanTokList(xs []string) string {
+	ts := make([]string, len(xs))
+	for i, x := range xs {
+		ts[i] = leanTok(x)
+	}
+	return "[" + strings.Join(ts, ", ") + "]"
+}
+
 func leanStrList(xs []string) string {
 	qs := make([]string, len(xs))
 	for i, x := range xs {
@@ -827,7 +977,7 @@ func main() {
 
 	var b strings.Builder
 	b.WriteString("-- generated by xlate/c08 from lang/step, lang/service, lang/pack — do not edit\n")
-	b.WriteString("namespace Gen.C08\n\n")
+	b.WriteString("import Golib.Step.Tok\n\nnamespace Gen.C08\n\n")
 
 	b.WriteString("def consts : List (String × Int) := [\n")
 	var cs []string
@@ -864,7 +1014,9 @@ func main() {
 	all = append(all, "TxRecord", "ProfilePack", "ProfileStepSplitPack", "ErrorSnapPack1")
 	for _, side := range []struct{ def, method string }{{"wskel", "Write"}, {"rskel", "Read"}} {
 		for _, t := range all {
-			b.WriteString(fmt.Sprintf("def %s_%s : List String :=\n  %s\n\n", side.def, t, leanStrList(skeleton(t, side.method))))
+			sk := skeleton(t, side.method)
+			b.WriteString(fmt.Sprintf("def %s_%s : List String :=\n  %s\n\n", side.def, t, leanStrList(sk)))
+			b.WriteString(fmt.Sprintf("def %stok_%s : List Step.Tok :=\n  %s\n\n", side.def[:1], t, leanTokList(sk)))
 		}
 	}
 	b.WriteString("end Gen.C08\n")
